@@ -12,6 +12,7 @@ def main():
     ap = argparse.ArgumentParser()
     ap.add_argument("patch"); ap.add_argument("ids")
     ap.add_argument("--expect", type=int, default=1)
+    ap.add_argument("--allow", default="", help="comma list of acceptable exit codes (overrides --expect)")
     ap.add_argument("--tier", default="quick")
     ap.add_argument("--skip-baseline", action="store_true")
     ap.add_argument("--replay-check", action="store_true", help="re-run the reported replay file against the scratch tree")
@@ -34,8 +35,9 @@ def main():
         for pid in a.ids.split(","):
             p = subprocess.run([os.path.join(V, "check"), pid, "--repo", d, "--no-evidence", "--tier", a.tier], cwd=V, stdout=subprocess.PIPE, stderr=subprocess.STDOUT, text=True)
             lines = [l for l in p.stdout.splitlines() if l.startswith(("VIOLATION", "  check=", "INCONCLUSIVE", pid))]
-            verdict = "as expected" if p.returncode == a.expect else "UNEXPECTED"
-            if p.returncode != a.expect: ok = False
+            good = [int(x) for x in a.allow.split(",")] if a.allow else [a.expect]
+            verdict = "as expected" if p.returncode in good else "UNEXPECTED"
+            if p.returncode not in good: ok = False
             print("%s %s -> exit %d (%s)" % (os.path.basename(a.patch), pid, p.returncode, verdict))
             for l in lines[:8]: print("   ", l[:400])
             if a.replay_check and p.returncode == 1:
